@@ -54,6 +54,12 @@ def join_all() -> None:
 
 # ----------------------------------------------------------------- implementation side
 _commands = None
+MAX_HANGS = 4            # a section stops after that many hangs (each costs the whole step budget)
+_hangs = [0]
+
+
+def too_many_hangs() -> bool:
+    return _hangs[0] >= MAX_HANGS
 
 
 def impl_parse(line: bytes, conts: list[bytes], max_append: int | None = MAX_APPEND):
@@ -67,11 +73,12 @@ def impl_parse(line: bytes, conts: list[bytes], max_append: int | None = MAX_APP
     params = Params(ParsingState(continuations=[memoryview(c) for c in conts]),
                     max_append_len=max_append)
     try:
-        with D.Watch():
+        with D.Watch(cpu=1.5):
             cmd, _ = _commands.parse(memoryview(line), params)
     except ParsingInterrupt as i:
         return ('int', i.expected.literal_length)
     except D.Hang:
+        _hangs[0] += 1
         return ('exc', 'Hang')
     except BaseException as e:  # noqa
         return ('exc', type(e).__name__)
@@ -150,13 +157,16 @@ def section_utf7(ctx) -> None:
                      + rng.choice([b'-', b'', b'-x', b'!', b'-&', b'&']))
     terms, keep = [], []
     for c in cases:
+        if too_many_hangs():
+            break
         try:
-            with D.Watch():
+            with D.Watch(cpu=1.5):
                 modutf7_decode(c)
             ok = True
         except UnicodeError:
             ok = False
         except D.Hang:
+            _hangs[0] += 1
             ctx.failure('no_hang', f'modutf7_decode does not terminate on {c!r}',
                         {'kind': 'modutf7', 'input': c.hex()}, {'kind': 'hang'})
             continue
@@ -196,14 +206,15 @@ SWEEP_BASES = [b'a NOOP\r\n', b'a UID FETCH 1:* (FLAGS BODY[1.TEXT]<0.5>)\r\n',
 
 
 def sweep_lines(quick: bool) -> list[bytes]:
-    """Every byte value at every position of a few base lines (thorough);
-    the quick tier takes every position of two lines with the bytes the
-    grammar distinguishes plus a stride through the rest."""
+    """Byte substitutions at every position of a few base lines: the bytes the
+    grammar distinguishes (quick: one line) plus a stride through all values
+    (thorough: five lines).  All 256 values at the lexically interesting
+    positions are covered by CLASS_SWEEPS."""
     out = []
-    bases = SWEEP_BASES[1:2] if quick else SWEEP_BASES
+    bases = SWEEP_BASES[1:2] if quick else SWEEP_BASES[:5]
     special = [0x00, 0x0a, 0x0d, 0x20, 0x22, 0x28, 0x29, 0x2a, 0x2c, 0x2e, 0x30, 0x3a, 0x3c, 0x41, 0x5b, 0x5d,
                0x7b, 0x80]
-    values = list(range(256)) if not quick else special
+    values = sorted(set(range(0, 256, 5)) | set(special)) if not quick else special
     for base in bases:
         for k in range(len(base)):
             for c in values:
@@ -239,6 +250,8 @@ def section_parse(ctx) -> None:
     hist = collections.Counter()
     seen = set()
     for stream, data in inputs:
+        if too_many_hangs():
+            break
         units = split_units(data)
         if units is None:
             continue
@@ -268,6 +281,8 @@ def section_parse(ctx) -> None:
     # lexical class sweeps: one compact case per context
     sweep_terms, sweep_keep = [], []
     for pre, post in CLASS_SWEEPS:
+        if too_many_hangs():
+            break
         outs = []
         for c in range(256):
             line = pre + bytes([c]) + post
@@ -280,6 +295,9 @@ def section_parse(ctx) -> None:
             outs.append(e)
         sweep_terms.append(T.pair(T.bytes_(pre), T.bytes_(post), T.lst(enc_eout(e) for e in outs)))
         sweep_keep.append((pre, post, outs))
+
+    if len(sweep_terms) < len(CLASS_SWEEPS):
+        sweep_terms, sweep_keep = [], []
 
     def evaluate():
         for i in ctx.run_cases('class_sweep', HEADER, 'bytes * bytes * list eout', sweep_terms, 'chk_sweep', shard=4):
@@ -402,10 +420,14 @@ async def run_server_stream(ctx, cases: list[tuple[str, str, bytes]], terms, kee
     for i, (stream, state, data) in enumerate(cases):
         if 60 < nesting_depth(data) < 2500:
             continue
+        if too_many_hangs():
+            break
         conn = await pool.get(state)
         o = await D.feed(conn, data, pool.other, probe_other=(i % 7 == 0))
         hist[(stream, state, (o.tagged[1].decode() if o.tagged else 'closed' if o.closed else 'pending'))] += 1
         ctx.count(('server', state, data), nontrivial=bool(o.tagged and o.tagged[1] != b'BAD') or o.conts > 0)
+        if o.hang:
+            _hangs[0] += 1
         good = monitor(ctx, 'line', state, data, o)
         if good and o.units and not o.truncated and not o.hang:
             terms.append(enc_server_case(state, o.units, o))
@@ -455,7 +477,7 @@ def section_server(ctx) -> None:
     # byte sweep of a few base lines against the live server
     for base, state in ((b'a LOGIN testuser testpass\r\n', 'na'), (b'a FETCH 1 BODY[1]<0.5>\r\n', 'sel'),
                         (b'a SELECT &AOk-\r\n', 'auth')):
-        vals = range(256) if not ctx.quick else [0x00, 0x0d, 0x20, 0x22, 0x26, 0x28, 0x5b, 0x7b, 0xff]
+        vals = range(0, 256, 4) if not ctx.quick else [0x00, 0x0d, 0x20, 0x22, 0x26, 0x28, 0x5b, 0x7b, 0xff]
         for k in range(len(base)):
             for c in vals:
                 if c != base[k]:
@@ -564,7 +586,7 @@ def section_stored(ctx) -> None:
     for _ in range(ctx.scale(10, 300)):
         msgs.append(g.message())
     if ctx.quick:
-        msgs = msgs[::3] + msgs[1::7]
+        msgs = msgs[::4] + msgs[1::9]
     hist = collections.Counter()
     D.run_all(run_stored(ctx, msgs, hist))
     ctx.extra['stored_outcomes'] = dict(hist)
@@ -678,6 +700,8 @@ SECTIONS = [section_utf7, section_parse, section_server, section_stored, section
 
 
 def run(ctx) -> None:
+    import faulthandler, signal as _signal, sys as _sys
+    faulthandler.register(_signal.SIGUSR1, file=_sys.stderr)      # kill -USR1 <pid> shows where the check is
     import logging
     logging.disable(logging.CRITICAL)       # pymap logs the exceptions it answers
     D.install_watchdog()
@@ -702,6 +726,7 @@ def run(ctx) -> None:
         if only and sec.__name__.replace('section_', '') not in only.split(','):
             continue
         t0 = time.time()
+        _hangs[0] = 0
         sec(ctx)
         ctx.extra.setdefault('section_wall_s', {})[sec.__name__] = round(time.time() - t0, 1)
     t0 = time.time()
